@@ -27,8 +27,29 @@ def malformed_texts(rng, n):
     return out
 
 
+VOCAB = [b"2a3", b"1d0", b"1c1", b"1,2c3,4", b"0a1", b"< x", b"> y", b"---", b"\\ No newline at end of file", b"--- f", b"+++ f", b"*** f",
+         b"@@ -1 +1 @@", b"@@ -1,2 +1,0 @@", b"@@ -0,0 +1 @@", b" c", b"+p", b"-m", b"***************", b"*** 1 ****", b"*** 1,2 ****",
+         b"--- 1 ----", b"--- 1,2 ----", b"! b", b"diff --git a/f b/f", b""]
+
+
+def small_scope_streams(rng, maxlen, sample=None):
+    """every sequence of at most maxlen lines over VOCAB (the line forms of all three grammars), with and without a final
+    newline: shapes no mutation of a well-formed patch is likely to hit, e.g. a command directly followed by a marker line"""
+    import itertools
+    out = []
+    for k in range(1, maxlen + 1):
+        seqs = itertools.product(VOCAB, repeat=k)
+        if sample is not None and len(VOCAB) ** k > sample:
+            seqs = (tuple(rng.choice(VOCAB) for _ in range(k)) for _ in range(sample))
+        for sq in seqs:
+            out.append(b"\n".join(sq) + b"\n")
+    return out
+
+
 def l1_cases(rng, n):
     cases = []
+    for t in small_scope_streams(rng, 3 if n <= 2000 else 4, sample=None if n <= 2000 else 200000):
+        cases.append("PARSEALL %s 0 %s" % (rng.choice(["unknown", "unified", "context", "normal"]), hx(t)))
     for t in malformed_texts(rng, n):
         cases.append("PARSEALL %s %d %s" % (rng.choice(["unknown", "unknown", "unified", "context", "normal"]), rng.choice([-1, 0, 1, 2, 2147483647, -2147483648]), hx(t)))
     for _ in range(n // 2):
